@@ -80,6 +80,7 @@ type c18WriteOpts struct {
 	margin  int // -1 absent
 	color   int // -1 absent, 0 nil
 	viaSend bool
+	timeFormat, timeWrap string
 }
 
 func (w c18WriteOpts) String() string {
@@ -104,6 +105,12 @@ func (w c18WriteOpts) String() string {
 	}
 	if w.color >= 0 {
 		parts = append(parts, ":color nil")
+	}
+	if w.timeFormat != "" {
+		parts = append(parts, fmt.Sprintf(":time-format %q", w.timeFormat))
+	}
+	if w.timeWrap != "" {
+		parts = append(parts, fmt.Sprintf(":time-wrap %q", w.timeWrap))
 	}
 	return strings.Join(parts, " ")
 }
